@@ -39,8 +39,9 @@ _nf = os.path.join(_d, "C14_nofail.json")
 NOFAIL = set(json.load(open(_nf))) if os.path.exists(_nf) else set()
 
 FAILN = {"ADD_IOVEC": 3, "ADDBUFREF": 3}     # fault positions per step (default 2); the harness asserts the step makes no further allocation
-PRE_Q = [[], [(A, "ADD", 3)], [(A, "ADD", 16)], [(A, "PREPEND", 3)], [(A, "ADD", 15), (A, "DRAIN", 4)]]
-PA_Q = [[], [(A, "ADD", 3)]]
+PRE_Q = [[], [(A, "PREPEND", 3)], [(A, "ADD", 15), (A, "DRAIN", 4)]]
+PA_Q = [[(A, "ADD", 3)]]
+QUICK_1 = ["ADD", "PREPEND", "EXPAND", "RESERVE_COMMIT", "REF", "PULLUP"]       # reserve_commit2 / add_iovec: thorough (cost)
 PB_Q = [[(B, "ADD", 3)], [(B, "ADD", 17)], [(B, "ADD", 16), (B, "ADD", 3)]]
 
 def gen(tier, calibrate=False):
@@ -55,8 +56,7 @@ def gen(tier, calibrate=False):
     def tmo(fk): return dict(timeout=900 if tier == "quick" else 1500, mem_gb=8 if fk == "ADD_IOVEC" else 5)
     if tier == "quick":
         for pre in PRE_Q:
-            for fk in ALLOC_1:
-                if fk == "ADD_IOVEC": continue          # 52 x 4 copies of the step: out of the quick budget (thorough only)
+            for fk in QUICK_1:                          # budget: <= 5 min wall on 16 idle cores at ~150 s per obligation
                 obs.append(mk(pre, (A, fk), **tmo(fk)))
         for x in PA_Q:
             for y in PB_Q:
@@ -80,7 +80,10 @@ def gen(tier, calibrate=False):
             obs.append(mk(pre, (A, fk), cb=1, name_prefix="cb1_", **tmo(fk)))
     for fk in ["REMOVEBUF", "ADDBUFREF"]:
         obs.append(mk([(A, "ADD", 3), (B, "ADD", 17)], (A, fk), cb=1, name_prefix="cb1_", **tmo(fk)))
-    return obs
+    seen = set(); out = []
+    for o in obs:
+        if o["name"] not in seen: seen.add(o["name"]); out.append(o)
+    return out
 
 def obligations(tier):
     return gen(tier, calibrate=bool(os.environ.get("VERIF_C14_CALIBRATE")))
